@@ -31,6 +31,7 @@ type replayRec struct {
 	Script *scriptReplay   `json:"script,omitempty"`
 	Wait   *waitCfg        `json:"wait,omitempty"`
 	Stress *stressCfg      `json:"stress,omitempty"`
+	Racing *raceCfg        `json:"racing,omitempty"`
 	Detail json.RawMessage `json:"detail,omitempty"`
 }
 
@@ -119,6 +120,32 @@ func reportStress(c *vf.Ctx, r stressResult, race bool) {
 	}
 }
 
+func reportRacing(c *vf.Ctx, r raceResult, race bool) {
+	c.Count("evaluations", 1)
+	c.Count("racing_rounds", 1)
+	c.Count("racing_rounds:"+r.Cfg.Prim, 1)
+	c.Count("racing_rounds_mode:"+r.Cfg.Mode, 1)
+	if race {
+		c.Count("racing_rounds_race_build", 1)
+	}
+	c.Count("racing_waiters", r.Cfg.N)
+	c.Count("racing_waiters_called_before_change", r.Before)
+	c.Count("racing_waiters_called_during_change", r.Overlap)
+	c.Count("racing_waiters_called_after_change", r.After)
+	if r.Cfg.Mode == "race" && r.Before > 0 && r.After+r.Overlap > 0 {
+		c.Count("racing_rounds_with_waiters_on_both_sides:"+r.Cfg.Prim, 1)
+		c.Distinct("nontrivial", fmt.Sprintf("racing/%d/%d/%v", r.Cfg.Seed, r.Cfg.Run, race))
+	}
+	seen := map[string]bool{}
+	for _, f := range r.Findings {
+		if seen[f.FP] {
+			continue
+		}
+		seen[f.FP] = true
+		c.Violation(f.FP, f.What+fmt.Sprintf(" [racing run %d seed %d race=%v]", r.Cfg.Run, r.Cfg.Seed, race), replayRec{Mode: "racing", Racing: &r.Cfg, Detail: detail(r)})
+	}
+}
+
 // waitList: the deterministic scenario list of a tier.
 func waitList(c *vf.Ctx) []waitCfg {
 	var l []waitCfg
@@ -204,6 +231,21 @@ func child(c *vf.Ctx) {
 			cfg := genStress(c.Seed, i)
 			c.Mark(string(detail(cfg)))
 			reportStress(c, runStress(cfg), race)
+		}
+	case "racing":
+		lo, hi := atoi(c.ChildArgs[0]), atoi(c.ChildArgs[1])
+		for i := lo; i < hi; i++ {
+			cfg := genRace(c.Seed, i)
+			if i%64 == 0 {
+				c.Mark(string(detail(cfg)))
+			}
+			reportRacing(c, runRacing(cfg), race)
+		}
+	case "racing1":
+		var cfg raceCfg
+		json.Unmarshal([]byte(c.ChildArgs[0]), &cfg)
+		for k := 0; k < 300; k++ { // free-running: repeat the recorded round
+			reportRacing(c, runRacing(cfg), race)
 		}
 	case "stress1":
 		var cfg stressCfg
@@ -372,6 +414,9 @@ func run(c *vf.Ctx) {
 		case "stress":
 			b, _ := json.Marshal(r.Stress)
 			res = runChild(c, vf.ChildOpts{Name: "stress1", Args: []string{string(b)}, Timeout: 3 * time.Minute})
+		case "racing":
+			b, _ := json.Marshal(r.Racing)
+			res = runChild(c, vf.ChildOpts{Name: "racing1", Args: []string{string(b)}, Timeout: 3 * time.Minute})
 		case "race":
 			res = runChild(c, vf.ChildOpts{Name: "stress", Args: []string{"0", "80", "race"}, Race: true, Timeout: 5 * time.Minute})
 			reportRaces(c, res.Races)
@@ -445,6 +490,20 @@ func run(c *vf.Ctx) {
 			})
 		}
 	}
+	racing := func(n, per int, race bool) {
+		for lo := 0; lo < n; lo += per {
+			lo := lo
+			spawn(func() {
+				mode := "plain"
+				if race {
+					mode = "race"
+				}
+				finish(fmt.Sprintf("racing child [%d..) %s", lo, mode), runChild(c, vf.ChildOpts{Name: "racing", Args: []string{strconv.Itoa(lo), strconv.Itoa(min(lo+per, n)), mode}, Race: race, Timeout: 10 * time.Minute}))
+			})
+		}
+	}
+	racing(c.Pick(16000, 400000), c.Pick(2000, 10000), false)
+	racing(c.Pick(4000, 80000), c.Pick(1000, 5000), true)
 	stress(c.Pick(800, 16000), c.Pick(100, 500), false)
 	stress(c.Pick(240, 4000), c.Pick(40, 250), true)
 	wg.Wait()
@@ -460,6 +519,15 @@ func run(c *vf.Ctx) {
 	c.Require("wait_scenarios:special", 8)
 	c.Require("wait_scenarios:notheld", len(notHeldNames))
 	c.Require("stress_grants_under_contention", c.Pick(20000, 300000))
+	for _, p := range racingPrims {
+		c.Require("racing_rounds:"+p, c.Pick(1500, 30000))
+		c.Require("racing_rounds_with_waiters_on_both_sides:"+p, c.Pick(100, 2000))
+	}
+	c.Require("racing_rounds_race_build", c.Pick(3000, 60000))
+	c.Require("racing_rounds_mode:pretrue", c.Pick(1000, 20000))
+	c.Require("racing_rounds_mode:nevertrue", c.Pick(1000, 20000))
+	c.Require("racing_waiters_called_before_change", c.Pick(10000, 200000))
+	c.Require("racing_waiters_called_after_change", c.Pick(10000, 200000))
 	c.Require("stress_runs_race_build", c.Pick(200, 3000))
 	c.Assume("a consistent runtime.Stack(all) snapshot in which every goroutine is parked on a sync primitive or channel (twice in a row, timer-free scenario) means no goroutine can ever run again")
 	c.Assume("sync.Cond / sync.Mutex of the Go runtime are correct; Signal wakes the longest waiter")
